@@ -173,7 +173,8 @@ def _str_post(ctx):
         lo = data["min"] if minT is None else minT
         hi = data["max"] if maxT is None else maxT
         outside = any(t["entries"] and (t["entries"][0][0] < lo or t["entries"][-1][-2] > hi) for t in data["tiers"])  # intervals and points alike
-        if blanks and outside:
+        if outside and (blanks or core.is_praatio_error(ctx.exc)):
+            # (with blank filling off the pinned tree writes such entries verbatim; refusing them there too is what C04's sentence says)
             REC.skip("decode", "entry-outside-requested-span")
             return
         REC.violation(PROP, "decode", "getTextgridAsStr", {"call": "write", "tg": snap_like(data), "format": fmt, "blanks": blanks, "minT": minT, "maxT": maxT, "thr": thr},
